@@ -237,12 +237,20 @@ def install(world):
 
         NamedTemporaryFile = staticmethod(ntf_p)
 
+    import io as _io
+
+    class IoP:
+        def __getattr__(self, n):
+            return getattr(_io, n)
+
+        open = staticmethod(open_p)
+
     osp, shp, tfp = OsP(), ShutilP(), TempfileP()
     # Rebind, in every loaded tinyflux module, each global that is bound to a file-system entry point - whether the module imported
     # the package (`import os`), an alias of it, or single functions (`from os import replace`) - so that moving the I/O code around
     # or changing its import style does not blind the layer.  (Anything else that slips through is reported by the audit hook.)
     by_identity = {
-        id(_os): osp, id(_shutil): shp, id(_tempfile): tfp,
+        id(_os): osp, id(_shutil): shp, id(_tempfile): tfp, id(_io): IoP(),
         id(builtins.open): open_p, id(_tempfile.NamedTemporaryFile): ntf_p,
         id(_os.fsync): osp.fsync, id(_os.replace): osp.replace, id(_os.rename): osp.rename, id(_os.remove): osp.remove, id(_os.unlink): osp.unlink,
         id(_os.truncate): osp.truncate,
